@@ -60,8 +60,7 @@ def histories(tier):
         # depth 4 (a hidden field that needs three earlier blocks to reach its bad value)
         for tup in itertools.product(alpha, repeat=4):
             if len(set(tup)) >= 2:
-                for ns in itertools.product((1, 2), repeat=4):
-                    out.append(list(zip(tup, ns)))
+                out.append([(t, 1) for t in tup])
     # solve-without-setup after an option change that does not need a new setup (negative count = no setup())
     for a, bs in NOSETUP.items():
         for b in bs:
@@ -153,7 +152,7 @@ def main(tier):
         "distinct_nontrivial": len(hs),
         "distinct_hidden_states": sorted(states)[:12],
         "rule": "all histories of <= %d blocks (option tuple, setup, 1 or 2 solves) over %d option tuples on one object; thorough "
-                "adds all 4-block histories (at least two distinct tuples) "
+                "adds all 4-block histories (at least two distinct tuples, one solve per block) "
                 "(17x32 / 33x64, Shafranov, PolarR6, Zoni gyro), plus histories in which solve-time options (cycle type, smoothing "
                 "steps, iteration limit, norm type, tolerances, FMG cycle) are changed and solve() is called WITHOUT a new setup(); "
                 "after EVERY solve the observation (solution bitwise, iterations, "
